@@ -193,6 +193,13 @@ class Session:
         self.mark_dirty()
         return res
 
+    def queue_len(self):
+        c = self.clients[0] if self.clients else None
+        for x in ([c] if c is not None else []):
+            snd = x.fields[0]
+            return len(snd.ch.queue)
+        return getattr(self, '_last_qlen', 0)
+
     def mark_dirty(self):
         self.loop_dirty = True
         for c in self.callers:
@@ -203,11 +210,16 @@ class Session:
         if self.loop is None or self.loop_done:
             return
         before = (len(self.t.out), self.t.pos, len(world(self.I).spawned))
+        qlen = self.queue_len()
         r = poll_value(self.I, self.loop, CX)
         self.loop_dirty = False
         if r.variant == 'Ready':
             self.loop_done = True
             self.I.drop_value(self.loop)      # the task's future is dropped when it completes
+        if self.server.idle_reply_partial() and (self.queue_len() < qlen or self.loop_done):
+            # the loop took a request from the queue (or ended) although it had consumed a changed: line of an idle reply
+            # whose OK it has not consumed: the receive future holding that line was dropped
+            self.flags.add('idle_reply_dropped')
         for c in self.callers:
             c.dirty = True
         self.steps.append('loop')
